@@ -22,19 +22,19 @@ func init() {
 }
 
 type declaredOutput struct {
-	stage  string
-	id     string
-	shape  *schemaShape
-	pos    token.Pos
+	stage string
+	id    string
+	shape *schemaShape
+	pos   token.Pos
 }
 
 type producedOutput struct {
-	fn     string
-	stage  string // "" if to be resolved by unique declaration
-	id     string
-	shape  *schemaShape
-	pos    token.Pos
-	how    string
+	fn    string
+	stage string // "" if to be resolved by unique declaration
+	id    string
+	shape *schemaShape
+	pos   token.Pos
+	how   string
 }
 
 // lifecycleOutputs extracts the declared (stage, output) table of a provider package.
